@@ -252,19 +252,26 @@ SUITES = {
     ]},
     "C03": {"suites": [sys_suite("c03-sys", "c03_ok", {"n": 25, "shards": 10}, {"n": 200, "shards": 16}),
                        sys_suite("c03-sys-faults", "c03_ok", {"n": 25, "shards": 4}, {"n": 150, "shards": 16}, extra=["--faults"]),
+                       # the same pipeline over the ent/SQLite repository (it follows the same monitor: the pipeline only uses
+                       # what both repositories agree on)
+                       sys_suite("c03-sys-ent", "c03_ok", {"n": 25, "shards": 3}, {"n": 100, "shards": 16}, extra=["--impl", "ent", "--faults"]),
                        vsys_suite("c03-vsys", "vc03_ok", {"n": 25, "shards": 4}, {"n": 60, "shards": 16})]},
     "C04": {"gen_obligations": ["src:ent-guarded-update"], "suites": [sys_suite("c04-sys", "c04_ok", {"n": 25, "shards": 8}, {"n": 200, "shards": 16}),
                        sys_suite("c04-sys-faults", "c04_ok", {"n": 25, "shards": 6}, {"n": 150, "shards": 16}, extra=["--faults"]),
+                       sys_suite("c04-sys-ent", "c04_ok", {"n": 25, "shards": 3}, {"n": 100, "shards": 16}, extra=["--impl", "ent", "--faults"]),
                        vsys_suite("c04-vsys", "vc04_ok", {"n": 25, "shards": 2}, {"n": 60, "shards": 16})]},
     "C05": {"suites": [sys_suite("c05-sys", "c05_ok", {"n": 25, "shards": 8}, {"n": 200, "shards": 16}),
                        sys_suite("c05-sys-faults", "c05_ok", {"n": 25, "shards": 6}, {"n": 150, "shards": 16}, extra=["--faults"]),
+                       sys_suite("c05-sys-ent", "c05_ok", {"n": 25, "shards": 3}, {"n": 100, "shards": 16}, extra=["--impl", "ent"]),
                        vsys_suite("c05-vsys", "vc05_ok", {"n": 25, "shards": 4}, {"n": 60, "shards": 16})]},
     "C06": {"suites": [sys_suite("c06-sys", "c06_ok", {"n": 25, "shards": 10}, {"n": 200, "shards": 16}),
+                       sys_suite("c06-sys-ent", "c06_ok", {"n": 25, "shards": 3}, {"n": 100, "shards": 16}, extra=["--impl", "ent"]),
                        # the dispatch context is cancelled between the fetch and the start of the work function: the run ends
                        # cancelled without starting. The monitor has no label for that: the predicate alone is evaluated
                        sys_pred_suite("c06-sys-cancel-in-fetch", "c06_ok", {"n": 25, "shards": 4}, {"n": 150, "shards": 16},
                                       extra=["--cancel-in-fetch"])]},
     "C20": {"suites": [sys_suite("c20-sys", "c20_ok", {"n": 25, "shards": 10}, {"n": 200, "shards": 16}, extra=["--faults"]),
+                       sys_suite("c20-sys-ent", "c20_ok", {"n": 25, "shards": 3}, {"n": 100, "shards": 16}, extra=["--impl", "ent", "--faults"]),
                        # every placement of one fault (quick) and of two faults (thorough) over the scheduler's calls of base scenarios
                        sys_suite("c20-sys-exhaustive", "c20_ok", {"n": 0, "shards": 6, "args": ["--exhaustive", "3"]},
                                  {"n": 0, "shards": 16, "args": ["--exhaustive", "2", "--pairs"]}, length=100),
